@@ -11,6 +11,8 @@
 #include <libvpsc/exceptions.h>
 #include <libvpsc/assertions.h>
 #include <libavoid/vpsc.h>
+#include <memory>
+#include <type_traits>
 #include "mcx/mcx.h"
 #include "oracle/qp.h"
 using namespace std;
@@ -276,9 +278,11 @@ template <class NS> static void addresolves(int n, int m0max, bool fullD0) {
 // long merge cascades and deep splits only come into play with many variables.  Every member of a parametric family: shape x size x desired
 // pattern x weights x scales x solver; oracle = Hildreth's dual ascent (oracle/qp.h), cross-checked against the active-set oracle on n = 8.
 template <class NS> static void families(bool thorough) {
-    ctx.phase(mcx::fmt("structured problems %s: {chain, star, binary tree, braid, chain with equalities} x n in {8,16,40(,100)} x 5 desired patterns x 2 weightings x 2 scalings, solve + two re-solves", NS::name()));
+    ctx.phase(mcx::fmt("structured problems %s: {chain, star, binary tree, braid, chain with equalities} x n in {8,16,40(,100)} and independent three-variable groups that each need one split, n in {6,15,39,180,330(,600,1002)}; x 5 desired patterns x 2 weightings x 2 scalings x {incremental, static} solver, solve + two re-solves", NS::name()));
     vector<int> sizes = {8, 16, 40}; if (thorough) sizes.push_back(100);
-    for (int shape = 0; shape < 5; shape++) for (int n : sizes) for (int dp = 0; dp < 5; dp++) for (int wv = 0; wv < 2; wv++) for (int sv = 0; sv < 2; sv++) {
+    vector<int> gsizes = {6, 15, 39, 180, 330}; if (thorough) { gsizes.push_back(600); gsizes.push_back(1002); }
+    for (int shape = 0; shape < 6; shape++) for (int n : (shape == 5 ? gsizes : sizes)) for (int dp = 0; dp < 5; dp++) for (int wv = 0; wv < 2; wv++) for (int sv = 0; sv < 2; sv++) for (int stat = 0; stat < (std::is_same<typename NS::Inc, typename NS::Stat>::value ? 1 : 2); stat++) {
+        if (stat && shape == 4) continue;   // the static solver with equalities is KF-C01-1 (reported by the enumerated instances)
         if (ctx.stopped()) return; if (!ctx.next()) continue;
         Inst I; I.n = n; I.w.assign(n, 1); I.sc.assign(n, 1); I.d.assign(n, 0);
         for (int i = 0; i < n; i++) { if (wv) I.w[i] = 1 + (i % 3) * 3; if (sv) I.sc[i] = (i % 2) ? 2 : 0.5;
@@ -289,17 +293,20 @@ template <class NS> static void families(bool thorough) {
             if (shape == 2) { if (2 * i + 1 < n) I.cs.push_back({i, 2 * i + 1, 2, false}); if (2 * i + 2 < n) I.cs.push_back({i, 2 * i + 2, 3, false}); }
             if (shape == 3) { if (i + 1 < n) I.cs.push_back({i, i + 1, 1, false}); if (i + 3 < n) I.cs.push_back({i, i + 3, 4.5, false}); }
             if (shape == 4 && i + 1 < n) I.cs.push_back({i, i + 1, 2, i % 3 == 1});
+            if (shape == 5 && i % 3 == 0) { I.cs.push_back({i, i + 1, 3, false}); I.cs.push_back({i, i + 2, 3, false}); }
         }
-        string desc = mcx::fmt("%s structured shape#%d n=%d desired#%d weights#%d scales#%d (%zu constraints)", NS::name(), shape, n, dp, wv, sv, I.cs.size());
+        if (shape == 5) for (int i = 0; i < n; i++) { static const double base[3] = {5, 3, 6}; I.d[i] = base[i % 3] + (i / 3) * 0.01 + (dp == 0 ? 0 : dp == 1 ? (i % 3 == 1) * 0.5 : dp == 2 ? (i / 3) % 2 : dp == 3 ? -(i % 3) * 0.25 : ((i / 3) * 7) % 5 * 0.1); }
+        string desc = mcx::fmt("%s %s solver, structured shape#%d n=%d desired#%d weights#%d scales#%d (%zu constraints)", NS::name(), stat ? "static" : "incremental", shape, n, dp, wv, sv, I.cs.size());
         ctx.count("states"); ctx.count("nontrivial"); ctx.sample(desc, 1);
         typename NS::Vs vs; typename NS::Cs vc; for (int i = 0; i < n; i++) vs.push_back(new typename NS::V(i, I.d[i], I.w[i], I.sc[i])); for (auto &c : I.cs) vc.push_back(new typename NS::C(vs[c.l], vs[c.r], c.gap, c.eq));
         vector<double> d = I.d; string hist = desc + " ops: solve";
         try {
-            typename NS::Inc s(vs, vc);
+            typename NS::Inc *sInc = stat ? nullptr : new typename NS::Inc(vs, vc); std::unique_ptr<typename NS::Inc> holdInc(sInc);
             for (int step = 0; step < 3; step++) {
                 if (step == 1) { for (int i = 0; i < n; i += 3) { d[i] = -20; vs[i]->desiredPosition = -20; } hist += " desired[every 3rd]:=-20 solve"; }
                 if (step == 2) { for (int i = 1; i < n; i += 2) { d[i] = 200 - i; vs[i]->desiredPosition = 200 - i; } hist += " desired[odd]:=200-i solve"; }
-                s.solve(); ctx.count("transitions");
+                if (sInc) sInc->solve(); else { for (auto c : vc) delete c; vc.clear(); for (auto &c : I.cs) vc.push_back(new typename NS::C(vs[c.l], vs[c.r], c.gap, c.eq)); typename NS::Stat s2(vs, vc); s2.solve(); }   // the static solver is built anew for every solve
+                ctx.count("transitions");
                 vector<double> x; for (auto v : vs) x.push_back(v->finalPosition);
                 bool any = false; for (auto c : vc) any |= c->unsatisfiable;
                 if (P1) { if (any) ctx.violation("flag_on_feasible", {"structured"}, hist);
